@@ -18,6 +18,9 @@ FLD = {'%': 'fi', '&': 'fl', '!': 'fs', '#': 'fd', '$': 'ft'}
 LIT = {'%': '3', '&': '70000', '!': '2.5', '#': '1.25#', '$': '"ab"'}
 SMALL = {'%': '2%', '&': '2&', '!': '2!', '#': '2#', '$': '"b"'}
 INP = {'%': '5', '&': '70000', '!': '1.5', '#': '2.25', '$': 'hi'}
+# a second menu of accepted answers: a numeral every numeric type accepts (a
+# field converted to the wrong cell type still yields a legal cell)
+INS = {'%': '7', '&': '7', '!': '7', '#': '7', '$': 'yo'}
 
 TYPES = ('type rc\nfi as integer\nfl as long\nfs as single\nfd as double\nft as string\nend type\n'
          'type nest\nia as rc\nib as rc\nkk as long\nend type\n')
@@ -251,7 +254,8 @@ def _proc_prog(t, u, af, body, mode):
     arg = ARGFORMS[af].format(v=V[u], lit=LIT[u], arr=ARR[u], fld=FLD[u], g='g' + u, t=u)
     kind = 'function' if mode == 'function' else 'sub'
     b = BODIES[body].format(t=t, tn=TN[t], one=one, kind=kind)
-    src = AGG + f'dim shared g{u}\nconst kc = {LIT[u]}\n'
+    src = (TYPES + f'dim {ARR[u]}(3)\ndim p as rc\ndim pa(2) as rc\ndim w as nest\n'
+           f'dim shared g{u}\nconst kc = {LIT[u]}\n')
     src += f'{V[u]} = {SMALL[u]}\n{ARR[u]}(1) = {SMALL[u]}\np.{FLD[u]} = {SMALL[u]}\n'
     src += f'pa(1).{FLD[u]} = {SMALL[u]}\nw.ib.{FLD[u]} = {SMALL[u]}\ng{u} = {SMALL[u]}\n'
     if mode == 'call':
@@ -285,8 +289,15 @@ def fam_procs(tier):
                 bodies = list(BODIES) if (u == t or tier != 'quick') else ['write']
                 for body in bodies:
                     for mode in ('call', 'nocall', 'function'):
-                        if tier == 'quick' and mode == 'nocall' and body not in ('write', 'read'):
-                            continue
+                        if tier == 'quick':
+                            # quick: argument form and body are generated by
+                            # independent code paths (call site / callee):
+                            # every argument form with the two basic bodies,
+                            # every body with the two basic argument forms
+                            if body not in ('write', 'read') and af not in ('var', 'expr'):
+                                continue
+                            if mode == 'nocall' and body not in ('write', 'read'):
+                                continue
                         yield _case('procs', f'{t}<-{u}:{af}:{body}:{mode}',
                                     _proc_prog(t, u, af, body, mode), [inp])
     # two parameters, by-reference and by-value mixed
@@ -452,20 +463,24 @@ def fam_io(tier):
     pre = AGG + 'n% = 2\n' + ''.join(f'dim shared g{t}\ndim dy{t}(n%)\n' for t in T5)
     for pn, pr in prompts.items():
         for tk, tg in targets.items():
+            if tier == 'quick' and pn != 'none' and tk != 'scalar':
+                continue
             for t in T5:
                 l = tg.format(v=V[t], arr=ARR[t], f=FLD[t], t=t)
                 src = pre + pr + l + f'\nprint {l}\n'
                 bad = 'x' if t != '$' else 'a,b'
                 yield _case('io', f'input:{pn}:{tk}:{t}', src,
-                            [{'input': [INP[t]]}, {'input': [bad, '', INP[t]]}])
+                            [{'input': [INP[t]]}, {'input': [bad, '', INS[t]]}])
     for t, u in itertools.product(T5, T5):
         src = f'input {V[t]}, {W[u]}\nprint {V[t]}; {W[u]}\ninput "q"; {W[u]}, {V[t]}, k%\nprint {W[u]}; {V[t]}; k%\n'
         good1 = f'{INP[t]},{INP[u]}'
         good2 = f'{INP[u]},{INP[t]},1'
+        small1 = f'{INS[t]},{INS[u]}'
+        small2 = f'{INS[u]},{INS[t]},1'
         yield _case('io', f'input2:{t}{u}', src,
                     [{'input': [good1, good2]},
-                     {'input': ['x,' + INP[u], INP[t], INP[t] + ',x', good1, 'x,' + INP[t] + ',1',
-                                INP[u] + ',' + INP[t] + ',x', '1,2,3,4', good2]}])
+                     {'input': ['x,' + INP[u], INP[t], INP[t] + ',x', small1, 'x,' + INP[t] + ',1',
+                                INP[u] + ',' + INP[t] + ',x', '1,2,3,4', small2]}])
     yield _case('io', 'input-in-sub', 'call s(a%, b$)\nprint a%; b$\nsub s(x%, y$)\ninput x%, y$\nend sub\n',
                 [{'input': ['4,q']}, {'input': ['q,4', 'x,y', '4,q']}])
     yield _case('io', 'input-in-loop', 'for i% = 1 to 2\ninput a!(i%)\nnext\nprint a!(1) + a!(2)\n',
@@ -478,6 +493,8 @@ def fam_io(tier):
         for t in T5:
             l = tg.format(v=V[t], arr=ARR[t], f=FLD[t], t=t)
             for d in T5:
+                if tier == 'quick' and d != t and tk != 'scalar':
+                    continue
                 src = pre + f'read {l}\nprint {l}\nrestore\nread {l}, {l}\nprint {l}\ndata {datas[d]}, {datas[t]}\n'
                 yield _case('io', f'read:{tk}:{t}<-{d}', src)
     for k, src in {
@@ -625,6 +642,8 @@ def _snip_prog(body):
 
 def fam_context(tier):
     for cn, tpl in CONTEXTS.items():
+        if tier == 'quick' and cn in ('in-else', 'in-do', 'in-while'):
+            continue
         for i, s in enumerate(SNIPPETS):
             if cn == 'one-line-if':
                 if '\n' in s:
